@@ -49,6 +49,8 @@ enum Act {
     ConvMutPrev,
     ConvReadPrev,
     Abandon,
+    /// writes through the previous-output reference, then abandons the current element
+    AbandonMutPrev,
     Err(At),
     Panic(At, Payload),
 }
@@ -63,6 +65,7 @@ impl Act {
             Act::ConvMutPrev => 2,
             Act::ConvReadPrev => 3,
             Act::Abandon => 4,
+            Act::AbandonMutPrev => 5,
             Act::Err(at) => 10 + *at as u64,
             Act::Panic(at, p) => 20 + (*at as u64) * 4 + *p as u64,
         }
@@ -308,6 +311,11 @@ fn run_case<T: Val, U: Val>(case: &Case) -> Outcome {
                 Ok(VecElementConversionResult::Converted(u))
             }
             Act::Abandon => {
+                drop(t);
+                Ok(VecElementConversionResult::Abandonned)
+            }
+            Act::AbandonMutPrev => {
+                mutate_prev(&mut st, &mut prev);
                 drop(t);
                 Ok(VecElementConversionResult::Abandonned)
             }
@@ -562,6 +570,9 @@ fn run_case<T: Val, U: Val>(case: &Case) -> Outcome {
     if planned_fault.is_none() && case.script.iter().take(len).any(|a| *a == Act::ConvMutPrev) && produced_n >= 2 {
         out.probes.push("prev_mutated");
     }
+    if planned_fault.is_none() && produced_n >= 1 && case.script.iter().take(len).skip(1).any(|a| *a == Act::AbandonMutPrev) {
+        out.probes.push("prev_mutated_then_abandoned");
+    }
     out
 }
 
@@ -764,13 +775,15 @@ fn gen_case(seed: u64, run: u64, mode: Mode) -> Case {
     let w_mut = rng.below(4);
     let w_read = rng.below(3);
     let w_aband = [0, 1, 3, 8][rng.below(4)];
-    let weights = [w_conv, w_mut, w_read, w_aband];
+    let w_aband_mut = [0, 1, 2][rng.below(3)];
+    let weights = [w_conv, w_mut, w_read, w_aband, w_aband_mut];
     let mut script: Vec<Act> = (0..len)
         .map(|_| match rng.weighted(&weights) {
             0 => Act::Conv,
             1 => Act::ConvMutPrev,
             2 => Act::ConvReadPrev,
-            _ => Act::Abandon,
+            3 => Act::Abandon,
+            _ => Act::AbandonMutPrev,
         })
         .collect();
     let mut api = if rng.chance(1, 3) { Api::Plain } else { Api::Try };
@@ -813,7 +826,7 @@ fn enumerate_faults(max_len: usize, mut f: impl FnMut(Case)) {
             for pos in 0..len {
                 for pattern in 0..(1u32 << pos) {
                     for fault in &faults {
-                        let mut script: Vec<Act> = (0..pos).map(|i| if pattern >> i & 1 == 1 { Act::Abandon } else if i % 2 == 1 { Act::ConvMutPrev } else { Act::Conv }).collect();
+                        let mut script: Vec<Act> = (0..pos).map(|i| if pattern >> i & 1 == 1 { if i % 3 == 2 { Act::AbandonMutPrev } else { Act::Abandon } } else if i % 2 == 1 { Act::ConvMutPrev } else { Act::Conv }).collect();
                         script.push(*fault);
                         script.resize(len, Act::Conv);
                         for api in [Api::Try, Api::Plain] {
@@ -840,17 +853,17 @@ fn enumerate_mismatches(max_len: usize, mut f: impl FnMut(Case)) {
     }
 }
 
-/// Every pattern of converted / converted-with-prev-mutation / abandoned for len <= max_len.
+/// Every pattern of converted / converted-with-prev-mutation / abandoned / abandoned-with-prev-mutation for len <= max_len.
 fn enumerate_free(max_len: usize, mut f: impl FnMut(Case)) {
     for pair in pairs() {
         for len in 0..=max_len {
-            let n = 3usize.pow(len as u32);
+            let n = 4usize.pow(len as u32);
             for pattern in 0..n {
                 let mut p = pattern;
                 let script: Vec<Act> = (0..len)
                     .map(|_| {
-                        let a = [Act::Conv, Act::ConvMutPrev, Act::Abandon][p % 3];
-                        p /= 3;
+                        let a = [Act::Conv, Act::ConvMutPrev, Act::Abandon, Act::AbandonMutPrev][p % 4];
+                        p /= 4;
                         a
                     })
                     .collect();
